@@ -36,6 +36,8 @@ RULE = (
     "were compared with the reference (signature = codec + structural class of the value); a bytes case is non-trivial by its "
     "(mutation kind, aioquic outcome, reference outcome class) signature."
 )
+RULE += ' Every mutated header is also parsed at a non-zero offset of a larger buffer (same outcome as on its own; an accepted packet ends inside the buffer).'
+
 ASSUMPTIONS = [
     "the reference codec (vf/c17_refcodec.py, checked at run time against the RFC 9000/9001/9369 examples) is right where it and aioquic agree",
     "pull_<message>() is only called on a buffer whose first byte is that message's handshake type (its documented precondition); "
